@@ -59,7 +59,7 @@ LANGS = _installed_locales()
 ENV_EXTRA = [('COLUMNS', '37'), ('LINES', '11'), ('PYTHONUTF8', '1'), ('PYTHONIOENCODING', 'latin-1'),
              ('SOURCE_DATE_EPOCH', '86400'), ('LC_NUMERIC', 'de_DE.UTF-8'), ('LC_COLLATE', 'tr_TR.UTF-8'),
              ('TERM', 'dumb'), ('NO_COLOR', '1'), ('PYTHONOPTIMIZE', '1'), ('PYTHONUNBUFFERED', '1'),
-             ('PYTHONWARNINGS', 'ignore'), ('SHELL', '/bin/false'), ('PWD', '/nonexistent/pwd')]
+             ('PYTHONWARNINGS', 'ignore'), ('PYTHONWARNINGS', 'error::DeprecationWarning'), ('SHELL', '/bin/false'), ('PWD', '/nonexistent/pwd')]
 
 
 def perturbation(seed, index):
@@ -259,7 +259,14 @@ def compile_once(repo, src, workdir, cfg, pert, _prior=False):
             if fh is not None:
                 fh.close()
     if rc != 0:
-        raise K.HarnessError('tzcompiler failed (cfg %s, perturbation %s):\n%s' % (cfg, pert, errtext[-2000:]))
+        if _prior and pert.get('index', 0) != 0:
+            return {}   # an earlier compilation that failed is a history like any other
+        if pert.get('index', 0) == 0:
+            # the unperturbed control must work, else nothing can be compared
+            raise K.HarnessError('tzcompiler failed (cfg %s, perturbation %s):\n%s' % (cfg, pert, errtext[-2000:]))
+        # the same source and command line compile in the control and FAIL here: that is a difference in outcome, reported
+        # like a difference in the files
+        return {'<compiler exit status>': ('exit %d: %s' % (rc, errtext[-300:].replace('\n', ' | '))).encode()}
     files = {}
     stale_marker = b'stale output of an earlier compilation'
     for f in sorted(os.listdir(out)):
